@@ -387,7 +387,43 @@ func condHolds(e influxql.Expr, t time.Time, m map[string]interface{}, leaves ma
 			return cmpInstant(lf.op, lf.instant, t)
 		}
 	}
-	return evalBoolIFD(e, m)
+	return condLeafEval(e, m)
+}
+
+// condLeafEval values a predicate on tags and fields (C18 swaps in an evaluator with functions).
+var condLeafEval = evalBoolIFD
+
+// condTimeLeaves collects every time comparison below the AND/OR/parenthesis skeleton with the
+// instant its operand denotes; ok is false when some time comparison has no such reading.
+func condTimeLeaves(e influxql.Expr, now time.Time, hasValuer bool, loc *time.Location, leaves map[influxql.Expr]*condLeaf) (ok bool) {
+	switch v := e.(type) {
+	case *influxql.ParenExpr:
+		return condTimeLeaves(v.Expr, now, hasValuer, loc, leaves)
+	case *influxql.BinaryExpr:
+		if v.Op == influxql.AND || v.Op == influxql.OR {
+			l := condTimeLeaves(v.LHS, now, hasValuer, loc, leaves)
+			r := condTimeLeaves(v.RHS, now, hasValuer, loc, leaves)
+			return l && r
+		}
+		var lf *condLeaf
+		if isTimeVarRef(v.LHS) {
+			lf = &condLeaf{op: v.Op, timeLHS: true, other: v.RHS}
+		} else if isTimeVarRef(v.RHS) {
+			lf = &condLeaf{op: v.Op, timeLHS: false, other: v.LHS}
+		} else {
+			return true
+		}
+		if !isCmpOp(v.Op) {
+			return false
+		}
+		t, ok := condInstant(lf.other, now, hasValuer, loc)
+		if !ok {
+			return false
+		}
+		lf.instant = t
+		leaves[e] = lf
+	}
+	return true
 }
 
 // plainLeaves collects the predicates that are not time comparisons.
